@@ -36,37 +36,37 @@ def MatchOK (n : Nat) (sm : Int) (m : Match) : Prop :=
   m.startMatch = sm ∧ sm ≤ m.startReplace ∧ m.startReplace ≤ m.endReplace ∧ m.endReplace ≤ n ∧
   sm ≤ m.endMatch ∧ m.endMatch ≤ n
 
-theorem fwdTest_bounds_aux (p input : List Nat) (sm : Int)
-    (fuel : Nat) (pos : Int) (ic : Nat) (sr er : Int)
+theorem fwdTest_bounds_aux (c : Ctx) (p input : List Nat) (sm : Int)
+    (fuel : Nat) (pos : Int) (ic : Nat) (sr er : Int) (neg : Bool)
     (hsr : SlotOK input.length sr) (her : SlotOK input.length er)
-    (m : Match) (ic' : Nat) (h : fwdTest p input sm fuel pos ic sr er = .ok m ic') :
+    (m : Match) (ic' : Nat) (h : fwdTest c p input sm fuel pos ic sr er neg = .ok m ic') :
     MatchOK input.length sm m := by
   unfold MatchOK
-  fun_induction fwdTest p input sm fuel pos ic sr er <;> simp_all [SlotOK]
+  fun_induction fwdTest c p input sm fuel pos ic sr er neg <;> simp_all [SlotOK]
   all_goals (first | omega | skip)
-  rename_i sr0 er0 _ _ _ _ _ _ _ _ _ _ _ _ hc
   obtain ⟨rfl, -⟩ := h
-  dsimp only at *
-  by_cases hs : sr0 = -1 <;> simp at hc ⊢ <;> omega
+  rename_i hc
+  simp +zetaDelta only at hc ⊢
+  split at hc <;> simp_all <;> omega
 
 /-- **fwdTest_bounds**: the boundaries of a successful test are ordered and inside the input -/
-theorem fwdTest_bounds (p input : List Nat) (pos : Int) (fuel : Nat) (m : Match) (ic : Nat)
-    (h : fwdTest p input pos fuel pos 0 (-1) (-1) = .ok m ic) : MatchOK input.length pos m :=
-  fwdTest_bounds_aux p input pos fuel pos 0 (-1) (-1) (Or.inl rfl) (Or.inl rfl) m ic h
+theorem fwdTest_bounds (c : Ctx) (p input : List Nat) (pos : Int) (fuel : Nat) (m : Match) (ic : Nat)
+    (h : fwdTest c p input pos fuel pos 0 (-1) (-1) false = .ok m ic) : MatchOK input.length pos m :=
+  fwdTest_bounds_aux c p input pos fuel pos 0 (-1) (-1) false (Or.inl rfl) (Or.inl rfl) m ic h
 
 /-! ### selection -/
 
-def testOf (back : Bool) (r : Rule) (input : List Nat) (pos : Int) : TestRes :=
-  (if back then backTest else fwdTest) r.dots input pos (r.dots.length + 1) pos 0 (-1) (-1)
+def testOf (c : Ctx) (back : Bool) (r : Rule) (input : List Nat) (pos : Int) : TestRes :=
+  (if back then backTest else fwdTest) c r.dots input pos (r.dots.length + 1) pos 0 (-1) (-1) false
 
 def eligible (back : Bool) (pass : Nat) (r : Rule) : Bool := !(back && r.opcode != opcodeOfPass pass)
 
 /-- **select_sound / select_first**: the selected rule is in the chain, its test succeeds with the reported
     match, and every eligible rule before it in the chain fails its test -/
-theorem select_first (back : Bool) (pass : Nat) (rules : List Rule) (input : List Nat) (pos : Int)
-    (r : Rule) (m : Match) (ic : Nat) (h : select back pass rules input pos = .rule r m ic) :
-    ∃ pre post, rules = pre ++ r :: post ∧ eligible back pass r = true ∧ testOf back r input pos = .ok m ic ∧
-      ∀ q ∈ pre, eligible back pass q = true → testOf back q input pos = .fail := by
+theorem select_first (c : Ctx) (back : Bool) (pass : Nat) (rules : List Rule) (input : List Nat) (pos : Int)
+    (r : Rule) (m : Match) (ic : Nat) (h : select c back pass rules input pos = .rule r m ic) :
+    ∃ pre post, rules = pre ++ r :: post ∧ eligible back pass r = true ∧ testOf c back r input pos = .ok m ic ∧
+      ∀ q ∈ pre, eligible back pass q = true → testOf c back q input pos = .fail := by
   induction rules with
   | nil => simp [select] at h
   | cons q rest ih =>
@@ -82,7 +82,7 @@ theorem select_first (back : Bool) (pass : Nat) (rules : List Rule) (input : Lis
     · simp only [he] at h
       have hq : eligible back pass q = true := by
         cases back <;> simp_all [eligible]
-      cases ht : testOf back q input pos with
+      cases ht : testOf c back q input pos with
       | unsupported => simp [testOf] at ht; simp [ht] at h
       | ok m' ic' =>
         simp [testOf] at ht; simp [ht] at h
@@ -120,13 +120,13 @@ theorem chainSorted_pairwise : ∀ (l : List Rule), chainSorted l = true → l.P
 /-- **select_best**: in a chain that is in order (what `passTableOK` checks on the compiled table) the rule
     applied at a position has, among all eligible rules whose test matches there, a key of maximal length,
     and among those of that length it is the one defined first -/
-theorem select_best (back : Bool) (pass : Nat) (rules : List Rule) (input : List Nat) (pos : Int)
+theorem select_best (c : Ctx) (back : Bool) (pass : Nat) (rules : List Rule) (input : List Nat) (pos : Int)
     (hs : chainSorted rules = true)
-    (r : Rule) (m : Match) (ic : Nat) (h : select back pass rules input pos = .rule r m ic)
+    (r : Rule) (m : Match) (ic : Nat) (h : select c back pass rules input pos = .rule r m ic)
     (q : Rule) (hq : q ∈ rules) (hqe : eligible back pass q = true) (m' : Match) (ic' : Nat)
-    (hqt : testOf back q input pos = .ok m' ic') :
+    (hqt : testOf c back q input pos = .ok m' ic') :
     q = r ∨ Before r q := by
-  obtain ⟨pre, post, hr, -, -, hpre⟩ := select_first back pass rules input pos r m ic h
+  obtain ⟨pre, post, hr, -, -, hpre⟩ := select_first c back pass rules input pos r m ic h
   subst hr
   rcases List.mem_append.mp hq with hq | hq
   · have := hpre q hq hqe
@@ -201,23 +201,68 @@ theorem memmove_ok (n max : Nat) (a : Acc) (dsm dsr : Nat) (ha : AccOK n max a) 
   · intro x hx; exact a3' x (List.mem_of_mem_take hx)
   · rw [hlen]; omega
 
+theorem swapOne_ok (r : Rule) (x : Nat) (p : Int) (n max : Nat) (a a' : Acc) (hp : 0 ≤ p ∧ p ≤ n) (ha : AccOK n max a)
+    (h : swapOne r x p max a = some a') : AccOK n max a' ∧ a.out.length ≤ a'.out.length := by
+  unfold swapOne at h
+  obtain ⟨a1, a2, a3⟩ := ha
+  split at h
+  · cases h; exact ⟨⟨a1, a2, a3⟩, Nat.le_refl _⟩
+  · split at h
+    · split at h
+      · cases h
+      · cases h
+        refine ⟨⟨by simp [a1], by simp; omega, ?_⟩, by simp⟩
+        intro y hy
+        rcases List.mem_append.mp hy with hy | hy
+        · exact a3 y hy
+        · simp at hy; omega
+    · simp only [] at h
+      split at h
+      · cases h
+      · split at h
+        · cases h
+        · cases h
+          refine ⟨⟨by simp [a1], ?_, ?_⟩, by simp⟩
+          · simp only [List.length_append, List.length_take, List.length_drop]; omega
+          · intro y hy
+            rcases List.mem_append.mp hy with hy | hy
+            · exact a3 y hy
+            · have := List.eq_of_mem_replicate hy; omega
+
+theorem swapReplace_ok (r : Rule) (input : List Nat) (max : Nat) :
+    ∀ (k : Nat) (p : Int) (a : Acc), 0 ≤ p → p + k ≤ input.length → AccOK input.length max a →
+      AccOK input.length max (swapReplace r input max k p a).1 ∧ a.out.length ≤ (swapReplace r input max k p a).1.out.length := by
+  intro k
+  induction k with
+  | zero => intro p a _ _ ha; simp [swapReplace]; exact ha
+  | succ k ih =>
+    intro p a hp hk ha
+    unfold swapReplace
+    cases hs : swapOne r (elem input p) p max a with
+    | none => simp only []; exact ⟨ha, Nat.le_refl _⟩
+    | some a' =>
+      obtain ⟨h1, h2⟩ := swapOne_ok r _ p input.length max a a' ⟨hp, by omega⟩ ha hs
+      simp only []
+      have := ih (p + 1) a' (by omega) (by omega) h1
+      exact ⟨this.1, by omega⟩
+
 /-- what an action may return -/
 def ActResOK (n max : Nat) (m : Match) : ActRes → Prop
   | .unsupported => True
-  | .fail a' => AccOK n max a'
-  | .ok a' np' => AccOK n max a' ∧ (np' = m.endReplace ∨ np' = m.endMatch)
+  | .fail a' _ => AccOK n max a'
+  | .ok a' np' _ => AccOK n max a' ∧ (np' = m.endReplace ∨ np' = m.endMatch)
 
-theorem fwdActLoop_ok (p input : List Nat) (m : Match) (max dsm : Nat) (sm : Int)
+theorem fwdActLoop_ok (t : Table) (p input : List Nat) (m : Match) (max dsm : Nat) (sm : Int)
     (hm : MatchOK input.length sm m) (hsm : 0 ≤ sm) :
-    ∀ (fuel ic : Nat) (a : Acc) (dsr : Nat) (np : Int),
+    ∀ (fuel ic : Nat) (a : Acc) (dsr : Nat) (np : Int) (vars : List Nat),
       AccOK input.length max a → dsm ≤ dsr → dsr ≤ a.out.length →
       (np = m.endReplace ∨ np = m.endMatch) →
-      ActResOK input.length max m (fwdActLoop p input m max dsm fuel ic a dsr np) := by
+      ActResOK input.length max m (fwdActLoop t p input m max dsm fuel ic a dsr np vars) := by
   intro fuel
   induction fuel with
-  | zero => intro ic a dsr np _ _ _ _; simp [fwdActLoop, ActResOK]
+  | zero => intro ic a dsr np vars _ _ _ _; simp [fwdActLoop, ActResOK]
   | succ f ih =>
-    intro ic a dsr np ha h1 h2 hnp
+    intro ic a dsr np vars ha h1 h2 hnp
     obtain ⟨hm0, hm1, hm2, hm3, hm4, hm5⟩ := hm
     unfold fwdActLoop
     by_cases hic : ic ≥ p.length
@@ -242,7 +287,7 @@ theorem fwdActLoop_ok (p input : List Nat) (m : Match) (max dsm : Nat) (sm : Int
           · exact hnp
       · simp only [hs]
         by_cases ho : (ins p ic == pass_omit) = true
-        · simp only [ho, if_true]; exact ih _ _ _ _ ha h1 h2 hnp
+        · simp only [ho, if_true]; exact ih _ _ _ _ _ ha h1 h2 hnp
         · simp only [ho]
           by_cases hc : (ins p ic == pass_copy) = true
           · simp only [hc, if_true]
@@ -257,20 +302,35 @@ theorem fwdActLoop_ok (p input : List Nat) (m : Match) (max dsm : Nat) (sm : Int
                 | some a2 =>
                   obtain ⟨hk3, hk4⟩ := fwdCopy_ok input m.startReplace m.endReplace max _ a2 (by omega) hm3 hk1 hcp
                   simp only []
-                  exact ih _ _ _ _ hk3 (Nat.le_refl _) (by omega) (Or.inr rfl)
+                  exact ih _ _ _ _ _ hk3 (Nat.le_refl _) (by omega) (Or.inr rfl)
             · simp only [hcount, if_false]
               cases hcp : fwdCopy input m.startReplace m.endReplace max a with
               | none => simpa [ActResOK] using ha
               | some a2 =>
                 obtain ⟨hk3, hk4⟩ := fwdCopy_ok input m.startReplace m.endReplace max a a2 (by omega) hm3 ha hcp
                 simp only []
-                exact ih _ _ _ _ hk3 h1 (by omega) (Or.inr rfl)
-          · simp [hc, ActResOK]
+                exact ih _ _ _ _ _ hk3 h1 (by omega) (Or.inr rfl)
+          · simp only [hc, Bool.false_eq_true, ↓reduceIte]
+            by_cases hsw : (ins p ic == pass_swap) = true
+            · simp only [hsw, if_true]
+              cases hr : refRule t p ic with
+              | none => simp [ActResOK]
+              | some r =>
+                simp only []
+                have hk := swapReplace_ok r input max (m.endReplace - m.startReplace).toNat m.startReplace a
+                  (by omega) (by omega) ha
+                split
+                · exact ih _ _ _ _ _ hk.1 h1 (by omega) hnp
+                · exact hk.1
+            · simp only [hsw, Bool.false_eq_true, ↓reduceIte]
+              cases hv : varAction p ic vars with
+              | none => simp [ActResOK]
+              | some vl => exact ih _ _ _ _ _ ha h1 h2 hnp
 
 /-- **fwdAction_ok**: whatever an action returns is well-formed, and it continues at endReplace or endMatch -/
-theorem fwdAction_ok (p input : List Nat) (m : Match) (ic max : Nat) (a : Acc) (sm : Int)
+theorem fwdAction_ok (t : Table) (p input : List Nat) (m : Match) (ic max : Nat) (a : Acc) (vars : List Nat) (sm : Int)
     (hm : MatchOK input.length sm m) (hsm : 0 ≤ sm) (ha : AccOK input.length max a) :
-    ActResOK input.length max m (fwdAction p input m ic max a) := by
+    ActResOK input.length max m (fwdAction t p input m ic max a vars) := by
   unfold fwdAction
   have hm' := hm
   obtain ⟨hm0, hm1, hm2, hm3, hm4, hm5⟩ := hm
@@ -279,7 +339,7 @@ theorem fwdAction_ok (p input : List Nat) (m : Match) (ic max : Nat) (a : Acc) (
   | some a1 =>
     obtain ⟨hk1, hk2⟩ := fwdCopy_ok input m.startMatch m.startReplace max a a1 (by omega) (by omega) ha hcp
     simp only []
-    exact fwdActLoop_ok p input m max a.out.length sm hm' hsm _ _ _ _ _ hk1 hk2 (Nat.le_refl _) (Or.inl rfl)
+    exact fwdActLoop_ok t p input m max a.out.length sm hm' hsm _ _ _ _ _ _ hk1 hk2 (Nat.le_refl _) (Or.inl rfl)
 
 /-- the action part from `ic` on consists of literals and omits only (no copy, nothing unsupported) -/
 def plainAction (p : List Nat) : Nat → Nat → Bool
@@ -299,16 +359,16 @@ def emitted (p : List Nat) : Nat → Nat → List Nat
     else if ins p ic == pass_omit then emitted p fuel (ic + 1)
     else []
 
-theorem fwdActLoop_plain (p input : List Nat) (m : Match) (max dsm : Nat) :
-    ∀ (fuel ic : Nat) (a : Acc) (dsr : Nat) (np : Int) (a' : Acc) (np' : Int),
+theorem fwdActLoop_plain (t : Table) (p input : List Nat) (m : Match) (max dsm : Nat) :
+    ∀ (fuel ic : Nat) (a : Acc) (dsr : Nat) (np : Int) (vars : List Nat) (a' : Acc) (np' : Int) (vars' : List Nat),
       plainAction p fuel ic = true →
-      fwdActLoop p input m max dsm fuel ic a dsr np = .ok a' np' →
+      fwdActLoop t p input m max dsm fuel ic a dsr np vars = .ok a' np' vars' →
       a'.out = a.out ++ emitted p fuel ic ∧ np' = np := by
   intro fuel
   induction fuel with
-  | zero => intro ic a dsr np a' np' h; simp [plainAction] at h
+  | zero => intro ic a dsr np vars a' np' vars' h; simp [plainAction] at h
   | succ f ih =>
-    intro ic a dsr np a' np' hp h
+    intro ic a dsr np vars a' np' vars' hp h
     unfold fwdActLoop at h
     unfold plainAction at hp
     unfold emitted
@@ -321,27 +381,27 @@ theorem fwdActLoop_plain (p input : List Nat) (m : Match) (max dsm : Nat) :
         by_cases hcap : a.out.length + ins p (ic + 1) > max
         · simp [hcap] at h
         · simp only [hcap, if_false] at h
-          obtain ⟨h1, h2⟩ := ih _ _ _ _ _ _ hp h
+          obtain ⟨h1, h2⟩ := ih _ _ _ _ _ _ _ _ hp h
           exact ⟨by simp [h1], h2⟩
       · simp only [hs] at h hp ⊢
         by_cases ho : (ins p ic == pass_omit) = true
         · simp only [ho, if_true] at h hp ⊢
-          exact ih _ _ _ _ _ _ hp h
+          exact ih _ _ _ _ _ _ _ _ hp h
         · simp [ho] at hp
 
 /-- **fwdAction_replaces_brackets**: an action made of literals (or an omit) appends to the output exactly the
     matched characters in front of the bracket, verbatim, and then the literals of the rule, and the scanner
     continues at endReplace: nothing outside the brackets is replaced, and nothing behind them is consumed -/
-theorem fwdAction_replaces_brackets (p input : List Nat) (m : Match) (ic max : Nat) (a a' : Acc) (np : Int)
-    (hp : plainAction p (p.length + 1) ic = true)
-    (h : fwdAction p input m ic max a = .ok a' np) :
+theorem fwdAction_replaces_brackets (t : Table) (p input : List Nat) (m : Match) (ic max : Nat) (a a' : Acc) (np : Int)
+    (vars vars' : List Nat) (hp : plainAction p (p.length + 1) ic = true)
+    (h : fwdAction t p input m ic max a vars = .ok a' np vars') :
     a'.out = a.out ++ slice input m.startMatch m.startReplace ++ emitted p (p.length + 1) ic ∧ np = m.endReplace := by
   unfold fwdAction at h
   cases hcp : fwdCopy input m.startMatch m.startReplace max a with
   | none => simp [hcp] at h
   | some a1 =>
     simp only [hcp] at h
-    obtain ⟨h1, h2⟩ := fwdActLoop_plain p input m max _ _ _ _ _ _ _ _ hp h
+    obtain ⟨h1, h2⟩ := fwdActLoop_plain t p input m max _ _ _ _ _ _ _ _ _ _ hp h
     refine ⟨?_, h2⟩
     rw [h1]
     unfold fwdCopy at hcp
@@ -379,17 +439,17 @@ def StageOK (n max : Nat) (o : StageOut) : Prop :=
 def mu (n : Nat) (pos : Int) (posInc : Bool) : Nat := 2 * (n - pos.toNat) + (if posInc then 1 else 0)
 
 theorem fwdLoop_ok (t : Table) (pass : Nat) (rules : List Rule) (input : List Nat) (max : Nat) :
-    ∀ (fuel : Nat) (pos : Int) (posInc : Bool) (a : Acc) (applied : List Nat),
+    ∀ (fuel : Nat) (pos : Int) (posInc : Bool) (a : Acc) (applied vars : List Nat),
       0 ≤ pos → pos ≤ input.length → AccOK input.length max a → mu input.length pos posInc < fuel →
-      match fwdLoop t pass rules input max fuel pos posInc a applied with
+      match fwdLoop t pass rules input max fuel pos posInc a applied vars with
       | .unsupported => True
       | .fuel => False
       | .done o => StageOK input.length max o := by
   intro fuel
   induction fuel with
-  | zero => intro pos posInc a applied _ _ _ h; omega
+  | zero => intro pos posInc a applied vars _ _ _ h; omega
   | succ f ih =>
-    intro pos posInc a applied hp0 hpn ha hmu
+    intro pos posInc a applied vars hp0 hpn ha hmu
     unfold fwdLoop
     by_cases hend : pos ≥ input.length
     · simp only [hend, if_true]
@@ -406,7 +466,7 @@ theorem fwdLoop_ok (t : Table) (pass : Nat) (rules : List Rule) (input : List Na
           StageOK input.length max ⟨a'.out, a'.map, ri, applied⟩ := by
         intro a' ri ⟨b1, b2, b3⟩ hr
         exact ⟨b2, b1, hr, b3⟩
-      cases hsel : (if posInc = true then select false pass rules input pos else Sel.none) with
+      cases hsel : (if posInc = true then select ⟨t, pass != 0, vars⟩ false pass rules input pos else Sel.none) with
       | unsupported => simp
       | none =>
         simp only []
@@ -414,7 +474,7 @@ theorem fwdLoop_ok (t : Table) (pass : Nat) (rules : List Rule) (input : List Na
         · simp only [hcap, if_true]; exact hfin a _ ha hri
         · simp only [hcap, if_false]
           obtain ⟨a1, a2, a3⟩ := ha
-          apply ih (pos + 1) true _ applied (by omega) (by omega)
+          apply ih (pos + 1) true _ applied vars (by omega) (by omega)
           · refine ⟨by simp [a1], by simp; omega, ?_⟩
             intro x hx
             rcases List.mem_append.mp hx with hx | hx
@@ -432,24 +492,24 @@ theorem fwdLoop_ok (t : Table) (pass : Nat) (rules : List Rule) (input : List Na
           · rfl
         subst hpi
         simp only [if_true] at hsel
-        obtain ⟨pre, post, -, -, htest, -⟩ := select_first false pass rules input pos r m ic hsel
+        obtain ⟨pre, post, -, -, htest, -⟩ := select_first _ false pass rules input pos r m ic hsel
         have hm : MatchOK input.length pos m := by
           simp only [testOf, Bool.false_eq_true, if_false] at htest
-          exact fwdTest_bounds r.dots input pos _ m ic htest
-        have hact := fwdAction_ok r.dots input m ic max a pos hm hp0 ha
-        cases hres : fwdAction r.dots input m ic max a with
+          exact fwdTest_bounds _ r.dots input pos _ m ic htest
+        have hact := fwdAction_ok t r.dots input m ic max a vars pos hm hp0 ha
+        cases hres : fwdAction t r.dots input m ic max a vars with
         | unsupported => simp
-        | fail a' =>
+        | fail a' v' =>
           rw [hres] at hact
           exact hfin a' _ hact hri
-        | ok a' np =>
+        | ok a' np v' =>
           rw [hres] at hact
           obtain ⟨hacc, hnp⟩ := hact
           obtain ⟨hm0, hm1, hm2, hm3, hm4, hm5⟩ := hm
           simp only []
           have hnp0 : pos ≤ np ∧ np ≤ input.length := by
             rcases hnp with rfl | rfl <;> omega
-          apply ih np (np != pos) a' _ (by omega) hnp0.2 hacc
+          apply ih np (np != pos) a' _ v' (by omega) hnp0.2 hacc
           unfold mu at *
           simp only [if_true] at hmu
           by_cases heq : np = pos
@@ -479,6 +539,336 @@ theorem fwdStage_total (t : Table) (pass : Nat) (input : List Nat) (max : Nat) :
   have := fwdStage_contract t pass input max
   intro h; rw [h] at this; exact this
 
+/-! ## backward direction -/
+
+/-- boundaries of a successful backward test at position `sm`: the replacement ends at or after the match
+    start (so the scanner never moves backwards); the bracket may OPEN before it after a look-back -/
+def MatchOKB (n : Nat) (sm : Int) (m : Match) : Prop :=
+  m.startMatch = sm ∧ 0 ≤ m.startReplace ∧ m.startReplace ≤ m.endReplace ∧ sm ≤ m.endReplace ∧ m.endReplace ≤ n ∧
+  sm ≤ m.endMatch ∧ m.endMatch ≤ n
+
+theorem attrMin_ge (t : Table) (ds neg seg : Bool) (mask : Nat) (input : List Nat) :
+    ∀ (k : Nat) (pos : Int), pos ≤ (attrMin t ds neg seg mask input k pos).2 := by
+  intro k; induction k with
+  | zero => intro pos; simp [attrMin]
+  | succ k ih =>
+    intro pos; unfold attrMin
+    split
+    · simp
+    · split
+      · simp
+      · split
+        · simp
+        · have := ih (pos + 1); omega
+
+theorem attrMax_ge (t : Table) (ds neg seg : Bool) (mask : Nat) (input : List Nat) :
+    ∀ (k : Nat) (pos : Int), pos ≤ (attrMax t ds neg seg mask input k pos).2 := by
+  intro k; induction k with
+  | zero => intro pos; simp [attrMax]
+  | succ k ih =>
+    intro pos; unfold attrMax
+    split
+    · simp
+    · split
+      · simp
+      · split
+        · simp
+        · have := ih (pos + 1); omega
+
+theorem attrOperand_ge (t : Table) (ds neg seg : Bool) (p : List Nat) (ic : Nat) (input : List Nat) (pos : Int) :
+    pos ≤ (attrOperand t ds neg seg p ic input pos).2 := by
+  unfold attrOperand
+  simp only []
+  split
+  · have h1 := attrMin_ge t ds neg seg (attrMask p ic) input (ins p (ic + 5)) pos
+    have h2 := attrMax_ge t ds neg seg (attrMask p ic) input (ins p (ic + 6) - ins p (ic + 5)) (attrMin t ds neg seg (attrMask p ic) input (ins p (ic + 5)) pos).2
+    omega
+  · exact attrMin_ge _ _ _ _ _ _ _ _
+
+theorem backTest_bounds_aux (c : Ctx) (p input : List Nat) (sm : Int) (hsm : 0 ≤ sm) :
+    ∀ (fuel : Nat) (pos : Int) (ic : Nat) (sr er : Int) (neg : Bool), 0 ≤ pos →
+    SlotOK input.length sr → SlotOK input.length er →
+    ∀ (m : Match) (ic' : Nat), backTest c p input sm fuel pos ic sr er neg = .ok m ic' →
+    MatchOKB input.length sm m := by
+  intro fuel
+  induction fuel with
+  | zero => intro pos ic sr er neg _ _ _ m ic' h; simp [backTest] at h
+  | succ f ih =>
+    intro pos ic sr er neg hpos hsr her m ic' h
+    unfold backTest at h
+    by_cases h1 : ic ≥ p.length
+    · simp [h1] at h
+    · simp only [h1, if_false] at h
+      by_cases h2 : pos > input.length
+      · simp [h2] at h
+      · simp only [h2, if_false] at h
+        by_cases o0 : (ins p ic == pass_not) = true
+        · simp only [o0, if_true] at h
+          exact ih _ _ _ _ _ hpos hsr her m ic' h
+        · simp only [o0, Bool.false_eq_true, ↓reduceIte] at h
+          by_cases o1 : (ins p ic == pass_first) = true
+          · simp only [o1, if_true, post_ok] at h
+            exact ih _ _ _ _ _ hpos hsr her m ic' h.2
+          · simp only [o1, Bool.false_eq_true, ↓reduceIte] at h
+            by_cases o2 : (ins p ic == pass_last) = true
+            · simp only [o2, if_true, post_ok] at h
+              exact ih _ _ _ _ _ hpos hsr her m ic' h.2
+            · simp only [o2, Bool.false_eq_true, ↓reduceIte] at h
+              by_cases o3 : (ins p ic == pass_lookback) = true
+              · simp only [o3, if_true] at h
+                by_cases cneg : pos - (ins p (ic + 1) : Int) < 0
+                · simp only [cneg, if_true, post_ok] at h
+                  exact ih _ _ _ _ _ (by omega) hsr her m ic' h.2
+                · simp only [cneg, if_false, post_ok] at h
+                  exact ih _ _ _ _ _ (by omega) hsr her m ic' h.2
+              · simp only [o3, Bool.false_eq_true, ↓reduceIte] at h
+                by_cases o4 : (ins p ic == pass_string || ins p ic == pass_dots) = true
+                · simp only [o4, if_true, post_ok] at h
+                  exact ih _ _ _ _ _ (by omega) hsr her m ic' h.2
+                · simp only [o4, Bool.false_eq_true, ↓reduceIte] at h
+                  by_cases o5 : (ins p ic == pass_startReplace) = true
+                  · simp only [o5, if_true, post_ok] at h
+                    exact ih _ _ _ _ _ hpos (Or.inr ⟨hpos, by omega⟩) her m ic' h.2
+                  · simp only [o5, Bool.false_eq_true, ↓reduceIte] at h
+                    by_cases o6 : (ins p ic == pass_endReplace) = true
+                    · simp only [o6, if_true, post_ok] at h
+                      exact ih _ _ _ _ _ hpos hsr (Or.inr ⟨hpos, by omega⟩) m ic' h.2
+                    · simp only [o6, Bool.false_eq_true, ↓reduceIte] at h
+                      by_cases o7 : (ins p ic == pass_attributes) = true
+                      · simp only [o7, if_true, post_ok] at h
+                        have := attrOperand_ge c.t c.dotsSide false false p ic input pos
+                        exact ih _ _ _ _ _ (by omega) hsr her m ic' h.2
+                      · simp only [o7, Bool.false_eq_true, ↓reduceIte] at h
+                        by_cases o8 : (ins p ic == pass_endTest) = true
+                        · simp only [o8, if_true] at h
+                          unfold MatchOKB
+                          unfold SlotOK at hsr her
+                          by_cases hs : sr = -1
+                          · subst hs
+                            simp at h
+                            split at h
+                            · cases h
+                            · cases h; simp; omega
+                          · have hb : (sr == -1) = false := by simpa using hs
+                            simp [hb] at h
+                            split at h
+                            · cases h
+                            · cases h; simp; omega
+                        · simp only [o8, Bool.false_eq_true, ↓reduceIte] at h
+                          cases hv : varTest p ic c.vars with
+                          | none => simp [hv] at h
+                          | some b =>
+                            simp only [hv, post_ok] at h
+                            exact ih _ _ _ _ _ hpos hsr her m ic' h.2
+
+theorem backTest_bounds (c : Ctx) (p input : List Nat) (pos : Int) (hpos : 0 ≤ pos) (fuel : Nat) (m : Match) (ic : Nat)
+    (h : backTest c p input pos fuel pos 0 (-1) (-1) false = .ok m ic) : MatchOKB input.length pos m :=
+  backTest_bounds_aux c p input pos hpos fuel pos 0 (-1) (-1) false hpos (Or.inl rfl) (Or.inl rfl) m ic h
+
+/-- backward accumulator: one map entry per INPUT position, output within the capacity -/
+def AccB (n max : Nat) (a : Acc) : Prop := a.map.length = n ∧ a.out.length ≤ max
+
+theorem setRange_length (map : List Int) (a b v : Int) : (setRange map a b v).length = map.length := by
+  simp [setRange]
+
+theorem slice_length_le (input : List Nat) (a b : Int) : (slice input a b).length ≤ (b - a).toNat := by
+  unfold slice; split
+  · simp
+  · simp only [List.length_take]; omega
+
+theorem backCopy_ok (input : List Nat) (frm to : Int) (n max : Nat) (a a' : Acc) (ha : AccB n max a)
+    (h : backCopy input frm to max a = some a') : AccB n max a' := by
+  unfold backCopy at h
+  split at h
+  · split at h
+    · cases h
+    · cases h
+      obtain ⟨h1, h2⟩ := ha
+      refine ⟨by simp [h1], ?_⟩
+      have := slice_length_le input frm to
+      simp; omega
+  · cases h; exact ha
+
+def ActResOKB (n max : Nat) (m : Match) : ActRes → Prop
+  | .unsupported => True
+  | .fail a' _ => AccB n max a'
+  | .ok a' np' _ => AccB n max a' ∧ (np' = m.endReplace ∨ np' = m.endMatch)
+
+theorem backActLoop_ok (p input : List Nat) (m : Match) (n max dsm : Nat) :
+    ∀ (fuel ic : Nat) (a : Acc) (dsr : Nat) (np : Int) (vars : List Nat),
+      AccB n max a → (np = m.endReplace ∨ np = m.endMatch) →
+      ActResOKB n max m (backActLoop p input m max dsm fuel ic a dsr np vars) := by
+  intro fuel
+  induction fuel with
+  | zero => intro ic a dsr np vars _ _; simp [backActLoop, ActResOKB]
+  | succ f ih =>
+    intro ic a dsr np vars ha hnp
+    unfold backActLoop
+    by_cases hic : ic ≥ p.length
+    · simp only [hic, if_true]; exact ⟨ha, hnp⟩
+    · simp only [hic, if_false]
+      by_cases hs : (ins p ic == pass_string || ins p ic == pass_dots) = true
+      · simp only [hs, if_true]
+        by_cases hcap : a.out.length + ins p (ic + 1) > max
+        · simp only [hcap, if_true]; exact ha
+        · simp only [hcap, if_false]
+          have hl : (literal p ic).length ≤ ins p (ic + 1) := by
+            unfold literal; simp only [List.length_take]; omega
+          apply ih
+          · exact ⟨ha.1, by simp; omega⟩
+          · exact hnp
+      · simp only [hs]
+        by_cases ho : (ins p ic == pass_omit) = true
+        · simp only [ho, if_true]; exact ih _ _ _ _ _ ha hnp
+        · simp only [ho]
+          by_cases hc : (ins p ic == pass_copy) = true
+          · simp only [hc, if_true]
+            have hmv : AccB n max (if dsr - dsm > 0 then
+                ({ a with out := (a.out.take dsm ++ (a.out.drop dsr).take (dsr - dsm) ++
+                    a.out.drop (dsm + ((a.out.drop dsr).take (dsr - dsm)).length)).take (a.out.length - (dsr - dsm)) }, dsm)
+                else (a, dsr)).1 := by
+              split
+              · refine ⟨ha.1, ?_⟩
+                simp only [List.length_take]
+                have := ha.2; omega
+              · exact ha
+            cases hcp : backCopy input m.startReplace m.endReplace max _ with
+            | none => simpa [ActResOKB] using hmv
+            | some a2 =>
+              have hk := backCopy_ok input _ _ n max _ a2 hmv hcp
+              simp only []
+              apply ih
+              · exact ⟨by simp [setRange_length, hk.1], hk.2⟩
+              · exact Or.inr rfl
+          · simp only [hc, Bool.false_eq_true, ↓reduceIte]
+            cases hv : varAction p ic vars with
+            | none => simp [ActResOKB]
+            | some vl => exact ih _ _ _ _ _ ha hnp
+
+theorem backAction_ok (p input : List Nat) (m : Match) (ic n max : Nat) (a : Acc) (vars : List Nat) (ha : AccB n max a) :
+    ActResOKB n max m (backAction p input m ic max a vars) := by
+  unfold backAction
+  cases hcp : backCopy input m.startMatch m.startReplace max a with
+  | none => simpa [ActResOKB] using ha
+  | some a1 =>
+    have hk := backCopy_ok input _ _ n max a a1 ha hcp
+    simp only []
+    apply backActLoop_ok
+    · exact ⟨by simp [setRange_length, hk.1], hk.2⟩
+    · exact Or.inl rfl
+
+/-- the backward engine contract: E1 output within the capacity, one map entry per input position, E3 consumed
+    length within the input -/
+def StageOKB (n max : Nat) (o : StageOut) : Prop :=
+  o.out.length ≤ max ∧ o.map.length = n ∧ o.realInlen ≤ n
+
+theorem backLoop_ok (t : Table) (pass : Nat) (rules : List Rule) (input : List Nat) (max : Nat) :
+    ∀ (fuel : Nat) (pos : Int) (posInc : Bool) (a : Acc) (applied vars : List Nat),
+      0 ≤ pos → pos ≤ input.length → AccB input.length max a → mu input.length pos posInc < fuel →
+      match backLoop t pass rules input max fuel pos posInc a applied vars with
+      | .unsupported => True
+      | .fuel => False
+      | .done o => StageOKB input.length max o := by
+  intro fuel
+  induction fuel with
+  | zero => intro pos posInc a applied vars _ _ _ h; omega
+  | succ f ih =>
+    intro pos posInc a applied vars hp0 hpn ha hmu
+    unfold backLoop
+    by_cases hend : pos ≥ input.length
+    · simp only [hend, if_true]
+      refine ⟨ha.2, ha.1, ?_⟩
+      show pos.toNat ≤ input.length
+      omega
+    · simp only [hend, if_false]
+      have hfin : ∀ (a' : Acc), AccB input.length max a' →
+          match (if (pass == 0) = true then StageRes.done ⟨a'.out, a'.map, pos.toNat, applied⟩
+                 else StageRes.done ⟨a'.out, setRange a'.map pos (skipSpaces t input input.length pos.toNat) a'.out.length,
+                        skipSpaces t input input.length pos.toNat, applied⟩) with
+          | .unsupported => True
+          | .fuel => False
+          | .done o => StageOKB input.length max o := by
+        intro a' ⟨b1, b2⟩
+        split
+        · rename_i hx
+          split at hx <;> simp at hx
+        · rename_i hx
+          split at hx <;> simp at hx
+        · rename_i o hx
+          split at hx
+          · cases hx; exact ⟨b2, b1, by show pos.toNat ≤ _; omega⟩
+          · cases hx
+            exact ⟨b2, by simp [setRange_length, b1], (skipSpaces_le t input _ _ (by omega)).1⟩
+      cases hsel : (if posInc = true then select ⟨t, pass != 0, vars⟩ true pass rules input pos else Sel.none) with
+      | unsupported => simp
+      | none =>
+        simp only []
+        by_cases hcap : a.out.length + 1 > max
+        · simp only [hcap, if_true]; exact hfin a ha
+        · simp only [hcap, if_false]
+          apply ih (pos + 1) true _ applied vars (by omega) (by omega)
+          · exact ⟨by simp [setRange_length, ha.1], by simp; omega⟩
+          · unfold mu at *
+            have : (pos + 1).toNat = pos.toNat + 1 := by omega
+            have : pos.toNat < input.length := by omega
+            cases posInc <;> simp at hmu ⊢ <;> omega
+      | rule r m ic =>
+        simp only []
+        have hpi : posInc = true := by
+          cases posInc
+          · simp at hsel
+          · rfl
+        subst hpi
+        simp only [if_true] at hsel
+        obtain ⟨pre, post, -, -, htest, -⟩ := select_first _ true pass rules input pos r m ic hsel
+        have hm : MatchOKB input.length pos m := by
+          simp only [testOf, if_true] at htest
+          exact backTest_bounds _ r.dots input pos hp0 _ m ic htest
+        have hact := backAction_ok r.dots input m ic input.length max a vars ha
+        cases hres : backAction r.dots input m ic max a vars with
+        | unsupported => simp
+        | fail a' v' =>
+          rw [hres] at hact
+          exact hfin a' hact
+        | ok a' np v' =>
+          rw [hres] at hact
+          obtain ⟨hacc, hnp⟩ := hact
+          obtain ⟨hm0, hm1, hm2, hm3, hm4, hm5, hm6⟩ := hm
+          simp only []
+          have hnp0 : pos ≤ np ∧ np ≤ input.length := by
+            rcases hnp with rfl | rfl <;> omega
+          apply ih np (decide (np > pos)) a' _ v' (by omega) hnp0.2 hacc
+          unfold mu at *
+          simp only [if_true] at hmu
+          by_cases heq : np = pos
+          · subst heq; simp; omega
+          · have : decide (np > pos) = true := by simp; omega
+            rw [this]
+            have : np.toNat > pos.toNat := by omega
+            have : np.toNat ≤ input.length := by omega
+            simp only [if_true]; omega
+
+/-- **backStage_contract / backStage_total**: the backward stage scanner never hits its iteration bound and its
+    result satisfies the clauses of the backward engine contract the driver theorems need (E1, E3) plus a map
+    entry for every input position -/
+theorem backStage_contract (t : Table) (pass : Nat) (input : List Nat) (max : Nat) :
+    match backStage t pass input max with
+    | .unsupported => True
+    | .fuel => False
+    | .done o => StageOKB input.length max o := by
+  unfold backStage
+  apply backLoop_ok
+  · omega
+  · omega
+  · exact ⟨by simp, Nat.zero_le _⟩
+  · unfold mu; simp
+
+theorem backStage_total (t : Table) (pass : Nat) (input : List Nat) (max : Nat) :
+    backStage t pass input max ≠ .fuel := by
+  have := backStage_contract t pass input max
+  intro h; rw [h] at this; exact this
+
+
 /-! ### the hypotheses are satisfiable: `noback pass2 @1[@2] @3` on the cells 1 2 1 -/
 
 def exProg : List Nat := [pass_dots, 1, 1, pass_startReplace, pass_dots, 1, 2, pass_endReplace, pass_endTest, pass_dots, 1, 3]
@@ -487,10 +877,23 @@ def exDots : List DotsRec := [⟨1, CTC_Letter, none, []⟩, ⟨2, CTC_Letter, n
 def exTable : Table := { numPasses := 2, rules := [exRule], forPass := [(2, [5])], dots := exDots }
 
 example : fwdStage exTable 2 [1, 2, 1] 10 = .done ⟨[1, 3, 1], [0, 1, 2], 3, [5]⟩ := by decide
-example : select false 2 [exRule] [1, 2, 1] 0 = .rule exRule ⟨0, 1, 2, 2⟩ 9 := by decide
+example : select ⟨exTable, true, []⟩ false 2 [exRule] [1, 2, 1] 0 = .rule exRule ⟨0, 1, 2, 2⟩ 9 := by decide
 example : plainAction exProg (exProg.length + 1) 9 = true ∧ emitted exProg (exProg.length + 1) 9 = [3] := by decide
 example : keyOf exRule = some exRule.chars ∧ chainSorted [exRule] = true ∧ passTableOK exTable = [] := by decide
 /-- capacity 1: the stage stops in front of the rule it cannot complete, keeping the copied prefix -/
 example : fwdStage exTable 2 [1, 2, 1] 1 = .done ⟨[1], [0], 0, []⟩ := by decide
+
+/-- an attribute operand with counts: one or two letters become cell 3 -/
+def exProg2 : List Nat := [pass_attributes, 0, 0, 0, CTC_Letter, 1, 2, pass_endTest, pass_dots, 1, 3]
+def exRule2 : Rule := { idx := 6, opcode := CTO_Pass2, chars := [], dots := exProg2 }
+def exTable2 : Table := { numPasses := 2, rules := [exRule2], forPass := [(2, [6])], dots := exDots }
+example : fwdStage exTable2 2 [1, 2, 1] 10 = .done ⟨[3, 3], [0, 2], 3, [6, 6]⟩ := by decide
+
+/-- negation and a pass variable: the first cell that is not 1 becomes 3, once (`!@1 #1=0` → `@3 #1=1`) -/
+def exProg3 : List Nat := [pass_not, pass_dots, 1, 1, pass_eq, 1, 0, pass_endTest, pass_dots, 1, 3, pass_eq, 1, 1]
+def exRule3 : Rule := { idx := 7, opcode := CTO_Pass2, chars := [], dots := exProg3 }
+def exTable3 : Table := { numPasses := 2, rules := [exRule3], forPass := [(2, [7])], backPass := [(2, [7])], dots := exDots }
+example : fwdStage exTable3 2 [1, 2, 2, 1] 10 = .done ⟨[1, 3, 2, 1], [0, 1, 2, 3], 4, [7]⟩ := by decide
+example : backStage exTable3 2 [1, 2, 2, 1] 10 = .done ⟨[1, 3, 2, 1], [0, 1, 2, 3], 4, [7]⟩ := by decide
 
 end Lou.C06Pass
